@@ -18,9 +18,102 @@ ASSUMPTIONS = ["segment lengths are taken from seg.length() (C06 owns their corr
 FUZZ = {'thorough': (16, 20000)}
 CONFIGS = ['scipy']
 BUDGET = {'quick': 6000, 'thorough': 150000}
-REQUIRED = ['via_reversed', 'near_miss_joint', 'T:boundary', 'T:near_one', 'zero_length_segment', 'discontinuous', 'closed', 'T:interior']
 
 EPS = 2.0 ** -52
+
+# routes by which the Path object under test comes into being: always after the caches of the object it is derived
+# from (or that is edited in place) were filled by queries.  The coherence claims are then checked against the
+# segments the resulting object actually holds.
+VIAS = ['scaled', 'scaled_xy', 'rotated', 'translated', 'approx_arcs_cubics', 'approx_arcs_quads', 'setitem_last_negative',
+        'setitem_first_negative', 'setitem_last', 'extend', 'insert_front', 'delete_last', 'set_end', 'set_start']
+
+
+REQUIRED = ['via_reversed'] + ['via:' + v for v in VIAS] + [ 'near_miss_joint', 'T:boundary', 'T:near_one', 'zero_length_segment', 'discontinuous', 'closed', 'T:interior']
+
+
+def _warm(ctx, p, arg):
+    ctx.lib('warm', p.length)
+    ctx.lib('warm', p.point, 0.3)
+    if arg % 2:
+        ctx.lib('warm', p.T2t, 0.7)
+
+
+def _derive(case, ctx, specs):
+    """returns the Path under test for case['via'] (None: route not applicable to these segments)"""
+    from svgpathtools import Line
+    via = case['via']
+    a, b, k = case.get('via_arg', [2.0, 0.25, 0])
+    has_arc = any(sp[0] == 'A' for sp in specs)
+    n = len(specs)
+    if via in ('scaled', 'scaled_xy', 'rotated', 'translated', 'approx_arcs_cubics', 'approx_arcs_quads'):
+        p0 = ctx.lib('build', gen.build_path, specs)
+        _warm(ctx, p0, k)
+        if via == 'scaled':
+            return ctx.lib('scaled', p0.scaled, a)
+        if via == 'scaled_xy':
+            if has_arc:
+                return None
+            return ctx.lib('scaled', p0.scaled, a, b)
+        if via == 'rotated':
+            return ctx.lib('rotated', p0.rotated, 40.0 * a)
+        if via == 'translated':
+            return ctx.lib('translated', p0.translated, complex(a, b))
+        if not has_arc:
+            return None
+        ctx.lib(via, p0.approximate_arcs_with_cubics if via.endswith('cubics') else p0.approximate_arcs_with_quads)
+        return p0
+    segs = [gen.build_seg(sp) for sp in specs]
+    size = gen.spec_size(specs)
+    other = Line(complex(size * 3, size), complex(-size, size * 2.5))
+    if via in ('setitem_last_negative', 'setitem_last', 'setitem_first_negative'):
+        if n < 2:
+            return None
+        first = via == 'setitem_first_negative'
+        from svgpathtools import Path
+        p0 = ctx.lib('build', Path, *([other] + segs[1:] if first else segs[:-1] + [other]))
+        _warm(ctx, p0, k)
+        if first:
+            p0[-n] = segs[0]
+        elif via == 'setitem_last':
+            p0[n - 1] = segs[-1]
+        else:
+            p0[-1] = segs[-1]
+        return p0
+    from svgpathtools import Path
+    if via == 'extend':
+        if n < 2:
+            return None
+        j = 1 + k % (n - 1)
+        p0 = ctx.lib('build', Path, *segs[:j])
+        _warm(ctx, p0, k)
+        p0.extend(segs[j:])
+        return p0
+    if via == 'insert_front':
+        if n < 2:
+            return None
+        p0 = ctx.lib('build', Path, *segs[1:])
+        if p0.length() > 0:
+            _warm(ctx, p0, k)
+        p0.insert(0, segs[0])
+        return p0
+    if via == 'delete_last':
+        p0 = ctx.lib('build', Path, *(segs + [other]))
+        _warm(ctx, p0, k)
+        del p0[-1]
+        return p0
+    if via in ('set_end', 'set_start'):
+        sp = specs[-1] if via == 'set_end' else specs[0]
+        if sp[0] == 'A':
+            return None
+        p0 = ctx.lib('build', Path, *segs)
+        _warm(ctx, p0, k)
+        z = complex(size * 0.37 * a, size * 0.61 * b) + (p0.end if via == 'set_end' else p0.start)
+        if via == 'set_end':
+            p0.end = z
+        else:
+            p0.start = z
+        return p0
+    raise ValueError(via)
 
 
 def strategy(tier, config):
@@ -40,8 +133,10 @@ def strategy(tier, config):
                 nx = gen.nextafter_k(x, 1) if d == 'ulp' else x + d * sc
                 if nx != x and len({tuple(p) for p in specs[i][1:]}) > 1:
                     specs[i][1] = [nx, specs[i][1][1]]
-        via = draw(st.sampled_from(['direct', 'direct', 'reversed_after_queries']))
-        return {'segs': specs, 'ts': ts, 'bsel': [list(b) for b in bsel], 'via': via}
+        via = draw(st.sampled_from(['direct', 'direct', 'direct', 'reversed_after_queries'] + VIAS))
+        return {'segs': specs, 'ts': ts, 'bsel': [list(b) for b in bsel], 'via': via,
+                'via_arg': [draw(st.sampled_from([2.0, 0.5, 3.0, -1.5, 0.3])), draw(st.sampled_from([0.25, 5.0, -2.0, 1.7])),
+                            draw(st.integers(0, 7))]}
     return s()
 
 
@@ -62,6 +157,14 @@ def check(case, ctx):
         for a, b in zip(path, specs):
             ctx.check(gen.seg_spec_of(a)[:2] == b[:2] and gen.seg_spec_of(a)[-1] == b[-1], 'reversed/segments',
                       'reversed() segment %r, expected %r' % (a, b))
+    elif case.get('via', 'direct') != 'direct':
+        path = _derive(case, ctx, specs)
+        if path is None:
+            ctx.count('via_not_applicable')
+            path = ctx.lib('build', gen.build_path, specs)
+        else:
+            ctx.count('via:' + case['via'])
+            specs = [gen.seg_spec_of(sg) for sg in path]
     else:
         path = ctx.lib('build', gen.build_path, specs)
     n = len(path)
